@@ -269,6 +269,12 @@ def check_pairs(rec, idx, rng, tier):
         for s in cands:
             byvar.setdefault(s.split('|')[1], []).append(s)
         va, vb = [str(v) for v in rng.choice(sorted(byvar), size=2, replace=False)]
+        if nm in closure_family and rng.random() < 0.6:
+            # the per-call compiled closure freezes max_distance / target_values / metric: pair a bounded call with an unbounded one
+            bounded = [v for v in ('2', '4', '5') if v in byvar]; unbounded = [v for v in ('0', '1', '3') if v in byvar]
+            va, vb = str(rng.choice(bounded)), str(rng.choice(unbounded))
+            if rng.random() < 0.3:
+                va, vb = vb, va
         A = str(rng.choice(byvar[va])); B = str(rng.choice(byvar[vb]))
         nthr = int(rng.choice([1, 4]))
         rec.evaluation(2)
